@@ -531,6 +531,39 @@ def var_rec_of(F, t):
     return None
 
 
+def static_locals(F, functions=None):
+    """A function-local `static` is initialised once, by the first call: if its initialiser depends on a parameter, on the
+    object or on any other run-time value, later calls reuse the first call's value - output then depends on call history."""
+    out = []
+    n = 0
+
+    def runtime(t):
+        if not isinstance(t, tuple) or not t:
+            return False
+        if t[0] in ("var", "this", "mem", "idx", "size"):
+            return True
+        if t[0] == "call":
+            return (t[2] is not None and runtime(t[2])) or any(runtime(a) for a in t[3])
+        return any(runtime(x) for x in t[1:] if isinstance(x, tuple))
+    for fn in sorted(functions if functions is not None else F.functions.values(), key=lambda f: f.key):
+        if not fn.cfg or fn.d.get("implicit"):
+            continue
+        for nd in fn.nodes:
+            if nd["k"] != "DeclStmt":
+                continue
+            for d in nd.get("decls", []):
+                if d.get("static") and "init" in d and "d" in d:
+                    n += 1
+                    t = fn.term(d["init"])
+                    inst = "%s#static:%s" % (fn.qn, d["n"])
+                    req = "a function-local static is initialised from constants only (it keeps its first value for the life of the process)"
+                    if runtime(t):
+                        out.append(bad("R-INIT", inst, fn.loc(nd["id"]), fn.qn, req, "`static %s` is initialised from %s: every later call reuses the first call's value" % (d["n"], fmt_term(t))))
+                    else:
+                        out.append(ok("R-INIT", inst, fn.loc(nd["id"]), fn.qn, req, fmt_term(t), nontrivial=False))
+    return out, n
+
+
 def check(F, run, tier):
     S = Summaries(F)
     run.declined = DECLINED
@@ -589,6 +622,11 @@ def check(F, run, tier):
     o = value_initialised_elements(F)
     run.add(o)
     run.floor("value-initialised-elements", len(o), 10)
+    o, _ns = static_locals(F)
+    run.add(o)
+    fx = [f for f in F.fixture_functions.values() if f.qn == "fixture::CachedLength"]
+    hit = bool(fx) and any(x.status == "violated" for x in static_locals(F, fx)[0])
+    run.fixture("fixtures/raw_read.cpp: `static const uint32_t length = 32 * height` is reported by R-INIT(static)", hit)
     o, k = raw_write_extents(F, S)
     run.add(o)
     run.floor("raw-write-extents", k, 5)
